@@ -3788,3 +3788,199 @@ func c02r14(p *Program, r *Report) {
 		r.Unresolved("no marshal<Type>(info, value) functions found")
 	}
 }
+
+// c13r12: every execution that (*queryExecutor).run starts reports back: on every path to every exit of run (and of
+// what it is split into) the result was sent on the results channel, or the select that sends it took the ctx.Done()
+// case. An execution that returns without either leaves executeQuery waiting for a result that never comes (with a
+// speculative policy and an idempotent query the caller blocks until its context ends).
+func c13r12(p *Program, r *Report) {
+	// the function is known by its signature: the one that is handed the channel on which executions report
+	var fi *FuncInfo
+	var resParam types.Object
+	for _, cand := range p.SortedFuncs() {
+		if cand.Decl.Body == nil || cand.Pkg != p.Root {
+			continue
+		}
+		cinfo := cand.Pkg.TypesInfo
+		for i := 0; ; i++ {
+			po := paramObj(cinfo, cand.Decl.Type, i)
+			if po == nil {
+				break
+			}
+			if ch, isCh := po.Type().Underlying().(*types.Chan); isCh && typeNameOf(ch.Elem()) == "Iter" && fi == nil {
+				// the one that sends on it (the coordinator that receives from it is not the reporter)
+				sends := false
+				ast.Inspect(cand.Decl.Body, func(y ast.Node) bool {
+					if snd, isS := y.(*ast.SendStmt); isS && isIdentOf(cinfo, snd.Chan, po) {
+						sends = true
+					}
+					return true
+				})
+				if sends {
+					fi, resParam = cand, po
+				}
+			}
+		}
+	}
+	if fi == nil {
+		r.Unresolved("no function takes a channel of *Iter results (queryExecutor.run)")
+		return
+	}
+	g := p.GraphOfInl(fi)
+	info := g.Info
+	sol := Solve(g, Lattice[int]{
+		Join: func(a, b int) int {
+			if a < b {
+				return a
+			}
+			return b
+		},
+		Eq: func(a, b int) bool { return a == b },
+		Step: func(st int, step Step) int {
+			switch step.Kind {
+			case StComm:
+				if cc, ok := step.Clause.(*ast.CommClause); ok && cc.Comm != nil {
+					if snd, isS := cc.Comm.(*ast.SendStmt); isS && isIdentOf(info, snd.Chan, resParam) {
+						return 1
+					}
+					if ch := recvChan(cc.Comm); ch != nil && strings.HasSuffix(strings.ReplaceAll(exprStr(ch), " ", ""), ".Done()") {
+						return 1
+					}
+				}
+			case StNode:
+				if snd, isS := step.Node.(*ast.SendStmt); isS && isIdentOf(info, snd.Chan, resParam) {
+					return 1
+				}
+			}
+			return st
+		},
+	})
+	n := 0
+	for _, e := range g.Exits() {
+		if e.Kind == ExitPanic {
+			continue
+		}
+		var st int
+		var ok bool
+		var at ast.Node = fi.Decl
+		if e.Node != nil {
+			st, ok = sol.Before(e.Node)
+			at = e.Node
+		} else {
+			st, ok = sol.AtExit(e)
+		}
+		if !ok {
+			continue
+		}
+		n++
+		r.Check(st == 1, at, fi.Name+" reports the outcome of the execution it ran", "a send on the results channel (or the ctx.Done() case of that select) on every path to the exit",
+			"run can return without having sent a result and without its context having ended: executeQuery waits for a result of this execution that never comes")
+	}
+	if n == 0 {
+		r.Unresolved("run has no exit")
+	}
+}
+
+// c16r16: the refresh debouncer cancels pending requests *before* it refreshes, never after: between the call of
+// refreshFn and the next wait of the flusher loop the timer is neither stopped nor drained. A request that arrives
+// while the refresh is running (the refresh has already read the peers table) must cause another refresh; stopping
+// the timer afterwards throws it away and the ring stays without the node that just came up.
+func c16r16(p *Program, r *Report) {
+	fi := r.NeedFunc("(*refreshDebouncer).flusher")
+	if fi == nil {
+		return
+	}
+	fnF := p.Field("refreshDebouncer", "refreshFn")
+	timerF := p.Field("refreshDebouncer", "timer")
+	if fnF == nil || timerF == nil {
+		r.Unresolved("refreshDebouncer.refreshFn / timer not found")
+		return
+	}
+	g := p.GraphOfInl(fi)
+	info := g.Info
+	callsRefresh := func(nd ast.Node) bool {
+		for _, c := range callsIn(nd) {
+			if fieldOf(info, c.Fun) == fnF {
+				return true
+			}
+		}
+		return false
+	}
+	cancels := func(nd ast.Node) bool {
+		for _, c := range callsIn(nd) {
+			if sel, ok := ast.Unparen(c.Fun).(*ast.SelectorExpr); ok && (sel.Sel.Name == "Stop" || sel.Sel.Name == "Reset") && fieldOf(info, sel.X) == timerF {
+				return sel.Sel.Name == "Stop"
+			}
+		}
+		return false
+	}
+	isTimerC := func(e ast.Expr) bool {
+		sel, ok := ast.Unparen(e).(*ast.SelectorExpr)
+		return ok && sel.Sel.Name == "C" && fieldOf(info, sel.X) == timerF
+	}
+	nref := 0
+	var bad ast.Node
+	sol := Solve(g, Lattice[int]{
+		Join: func(a, b int) int {
+			if a > b {
+				return a
+			}
+			return b
+		},
+		Eq: func(a, b int) bool { return a == b },
+		Step: func(st int, step Step) int {
+			switch step.Kind {
+			case StComm:
+				cc, ok := step.Clause.(*ast.CommClause)
+				if !ok {
+					return st
+				}
+				// the drain: a select with a default clause that takes from timer.C
+				sel, _ := p.Parent(p.Parent(cc)).(*ast.SelectStmt)
+				hasDefault := false
+				if sel != nil {
+					for _, cl := range sel.Body.List {
+						if c2, isC := cl.(*ast.CommClause); isC && c2.Comm == nil {
+							hasDefault = true
+						}
+					}
+				}
+				if hasDefault {
+					if cc.Comm != nil {
+						if ch := recvChan(cc.Comm); ch != nil && isTimerC(ch) && st == 1 && bad == nil {
+							bad = cc
+						}
+					}
+					return st
+				}
+				return 0 // the loop's wait: a new round begins
+			case StNode:
+				if callsRefresh(step.Node) {
+					return 1
+				}
+				if st == 1 && cancels(step.Node) && bad == nil {
+					bad = step.Node
+				}
+			}
+			return st
+		},
+	})
+	_ = sol
+	for _, u := range g.Units() {
+		for _, c := range callsIn(u.Decl.Body) {
+			if fieldOf(u.Pkg.TypesInfo, c.Fun) == fnF {
+				nref++
+			}
+		}
+	}
+	if nref == 0 {
+		r.Unresolved("flusher never calls refreshFn")
+		return
+	}
+	var at ast.Node = fi.Decl
+	if bad != nil {
+		at = bad
+	}
+	r.Check(bad == nil, at, "(*refreshDebouncer).flusher cancels pending requests before the refresh only", "no timer.Stop() / drain of timer.C between refreshFn() and the next wait",
+		"the debounce timer is stopped or drained after refreshFn ran: a refresh request that arrived while the refresh was in flight is thrown away, so a node that came up meanwhile is missing from the ring, the pools and the policy until some later event")
+}
